@@ -134,3 +134,20 @@ package server
 //@ func handleDataPacket
 //@   requires reqWF(req) && ownWF(req) && req.SrcAddr != nil
 //@   at-call handleChannelData assert [C05:decoded] int(arg1.Number) == be16(req.Buff, 0) && sameSlice(arg1.Data, req.Buff[4:4+be16(req.Buff, 2)]) && arg0.Conn == req.Conn && arg0.SrcAddr == req.SrcAddr && arg0.AllocationManager == req.AllocationManager
+
+//@      // ---- nonces (C03). math/big is outside the verifier's reach: decodeBase36/encodeBase36 are trusted (bounded audit only).
+//@ func decodeBase36
+//@   trusted
+//@   pure
+//@ func encodeBase36
+//@   trusted
+//@   pure
+
+//@ func (*ShortNonceHash).Validate
+//@   requires 2 <= s.hmacLen && s.hmacLen <= 32
+//@   fresh macOK
+//@   at-call crypto/hmac.Equal assert [C03:not-expired] len(timestampBytes) == 4 && timestampMinutes == be32(timestampBytes, 0) && currentMinutes == now() / 1000000000 / 60 && 0 <= currentMinutes - timestampMinutes && currentMinutes - timestampMinutes <= 60
+//@   at-call crypto/hmac.Equal assert [C03:full-mac] len(arg0) == s.hmacLen && len(arg1) == s.hmacLen && sameSlice(arg0, nonceBytes[4:]) && sameSlice(timestampBytes, nonceBytes[0:4]) && len(nonceBytes) == 4 + s.hmacLen
+//@   at-call crypto/hmac.Equal assert [C03:mac-of-timestamp] bytesId(arg1) == bytesId(expectedHMAC) && hashed[hash] == bytesId(timestampBytes) && hashKey[hash] == bytesId(s.key)
+//@   ensures [C03:accept-only-via-mac] res == nil ==> macOK
+//@   ensures [C03:errors] res == nil || errIs(res, errInvalidNonce)
